@@ -30,7 +30,7 @@ from ...entity_query_language.predicate import Symbol
 from ...entity_query_language.symbol_graph import (
     SymbolGraph,
 )
-from ...entity_query_language.utils import make_set
+from ...entity_query_language.utils import make_list, make_set
 
 SymbolType = Type[Symbol]
 """
@@ -250,8 +250,11 @@ class PropertyDescriptor(Symbol):
             self._bind_owner_if_container_type(attr, owner=obj)
             setattr(obj, self.private_attr_name, attr)
         if isinstance(attr, MonitoredContainer):
+            # copy first: the value may be the container itself (x.f = x.f, x.f += ...),
+            # and keep the order and repetitions of a list
+            values = make_list(value)
             attr._clear()
-            for v in make_set(value):
+            for v in values:
                 attr._add_item(v, inferred=False)
         else:
             setattr(obj, self.private_attr_name, value)
